@@ -44,6 +44,11 @@ def pattern_event(pp, tid, c, opts):
     ev = {"tid": tid, "k": "pattern", "comp": [[k, e4(v)] for k, v in c.items()], "opts": {k: str(v) for k, v in opts.items()},
           "requested": fix(opts.get("distribution_abundance", 1.0)), "isSum": bool(opts.get("is_abundance_sum", False)),
           "pruned": bool(pruned), "massView": bool(mass_view and r >= 3),
+          "maxIsotopes": int(opts["max_isotopes"]) if opts.get("max_isotopes") is not None else -1,
+          # masses are rounded to `distribution_resolution` decimals while the pattern is built (mass view, whole atoms,
+          # no e/p/n shift added afterwards): a multiple of 10^-r each, and no two peaks on one mass
+          "gridDecimals": r if (mass_view and all(float(v).is_integer() for v in c.values())
+                                and not any(k in c for k in "epn")) else -1,
           # neutron-offset view reported as masses: lightest peak = offset 0 = the monoisotopic mass (integer counts;
           # for fractional counts the reported value is pinned by a doctest, see C14_FractionalMean)
           "ncMassView": bool(opts.get("use_neutron_count") and opts.get("output_masses_for_neutron_offset")
